@@ -121,6 +121,8 @@ def gen_labware(rng, name, kind=None, vclass="int", fill="mixed", limits="loose"
     d["grid_site"] = [10 + 3 * i, 1 + i]
     if kind == "trough" and naming == "explicit" and rng.random() < 0.15:
         d["legacy"] = True
+    elif rng.random() < 0.1:
+        d["subclass"] = True
     if naming == "explicit":
         d["names"] = {f"{r},{c}": f"{name}@{r}.{c}" for r in range(rows) for c in range(cols) if initial[r][c] > 0}
     return d
@@ -156,7 +158,7 @@ def build_labware(desc):
         kw = {}
         if names is not None:
             kw["column_names"] = [names.get(f"0,{c}") for c in range(desc["columns"])]
-        return robotools.Trough(
+        return (_user_subclass(robotools.Trough) if desc.get("subclass") else robotools.Trough)(
             desc["name"],
             desc["virtual_rows"],
             desc["columns"],
@@ -171,7 +173,7 @@ def build_labware(desc):
             well_id(int(k.split(",")[0]), int(k.split(",")[1])): v for k, v in names.items()
         }
     arr = np.array(desc["initial"], dtype=float)
-    lw = robotools.Labware(
+    lw = (_user_subclass(robotools.Labware) if desc.get("subclass") else robotools.Labware)(
         desc["name"],
         desc["rows"],
         desc["columns"],
@@ -187,11 +189,26 @@ def build_labware(desc):
     return lw
 
 
+_SUBCLASSES = {}
+
+
+def _user_subclass(base):
+    """A trivial user-defined subclass (users do derive their own plate / worklist types)."""
+    if base not in _SUBCLASSES:
+        _SUBCLASSES[base] = type("My" + base.__name__, (base,), {"__doc__": "user-defined subclass"})
+    return _SUBCLASSES[base]
+
+
 def build_worklist(wcfg, device=None, filepath=None):
     import robotools
 
     device = device or wcfg.get("device", "evo")
     cls = {"evo": robotools.EvoWorklist, "fluent": robotools.FluentWorklist, "base": robotools.BaseWorklist}[device]
+    flavour = wcfg.get("flavour")
+    if flavour == "deprecated_worklist" and device == "evo":
+        cls = robotools.Worklist  # deprecated alias of the EVO worklist (emits a DeprecationWarning)
+    elif flavour == "subclass":
+        cls = _user_subclass(cls)
     return cls(
         filepath,
         max_volume=wcfg.get("max_volume", 950),
